@@ -1,5 +1,5 @@
 PROPS["C04"] = {
-    "bounds": "names 1..3 printable bytes, value and timestamp one symbolic digit each, separators symbolic in {space, tab} (thorough: runs of 1..2 and optional leading whitespace), 0..2 literal rewriters (old 1 symbolic byte, new 0..1, not 0..1, max in -1..2); the same name before and after one runtime change of the rewriter list (rule deleted / added; names of 2 bytes over {a,b,c,d}); isolation: two routes, buffer overwritten with symbolic bytes after the hand-off",
+    "bounds": "names 1..3 printable bytes, value and timestamp one symbolic digit each, separators symbolic in {space, tab} (thorough: runs of 1..2 and optional leading whitespace), 0..2 literal rewriters (old 1 symbolic byte, new 0..1, not 0..1, max in -1..2); the same name before and after one runtime change of the rewriter list (rule deleted / added; names of 2 bytes over {a,b,c,d}); every pair out of 13 concrete numeric spellings (exponent, hex float, sign, leading zeros, fraction) as value and timestamp token behind a free name of 1..2 bytes; isolation: two routes, buffer overwritten with symbolic bytes after the hand-off",
     "outside": "the regexp library's ReplaceAll/${n} expansion itself (the reference calls the same library: what is checked for /regex/ rules and /regex/ not-clauses, on 8 concrete rules with names of 1..3 bytes, is which clause is applied to what), multi-byte old patterns, numeric spellings (tokens are opaque bytes, which is the claim: byte for byte), the scanner-buffer reuse of the TCP input (C12)",
     "assumptions": ["reference semantics of a literal rewriter written in the harness: skip if `not` occurs, replace first max non-overlapping occurrences left to right"],
     "groups": [
@@ -8,6 +8,7 @@ PROPS["C04"] = {
             spec("C04/content/0rw", "VerifC04Content", {"nrw": "", "ws": "1"}),
         ] + [spec("C04/rules/rule=%d" % k, "VerifC04Rules", {"rule": str(k)}) for k in range(8)] + [
             spec("C04/after-change", "VerifC04AfterChange"),
+            spec("C04/tokens/numeric-spellings", "VerifC04Tokens"),
             spec("C04/isolation", "VerifC04Isolation"),
             spec("C04/isolation/aggregation", "VerifC04IsolationAgg"),
             spec("C04/content/ws", "VerifC04Content", {"nrw": "", "ws": "2"}, tier="thorough"),
